@@ -167,9 +167,20 @@ def _base_point_is_vertex(a, b, c, d, pos, cshape):
 
 
 def post_harmonic(ctx, call):
-    if call.exc is not None:
-        return
     a, b, c = call.args[:3]
+    if not all(S._is_tensor(o) for o in (a, b, c)) or a.shape[-1] < 3:
+        return  # harmonic_set constructs on the line through a and b: needs dimension >= 2
+    if call.exc is not None:
+        # three distinct collinear points always have a harmonic conjugate: a raise is a violation
+        try:
+            if all(R.is_dyadic(o.array, 30, 2 ** 20) for o in (a, b, c)) and not any(S.coll_shape(o) for o in (a, b, c)):
+                es = [np.asarray(o.array) for o in (a, b, c)]
+                if X.rank([X.vec(e) for e in es]) == 2 and all(X.rank([X.vec(es[i]), X.vec(es[j])]) == 2 for i, j in ((0, 1), (0, 2), (1, 2))):
+                    ctx.judge("harmonic_set", False, es, what=f"harmonic_set raised {type(call.exc).__name__} for three distinct collinear points", op="harmonic_set",
+                              feat={"exc": type(call.exc).__name__, "dim": int(a.shape[-1]) - 1}, nontrivial=True)
+        except Exception:
+            pass
+        return
     res = call.result
     if not all(R.finite(o.array) for o in (a, b, c)) or not all(R.is_dyadic(o.array, 30, 2 ** 20) for o in (a, b, c)):
         ctx.skip("harmonic_set", "non-representable operands")
